@@ -614,7 +614,14 @@ func ruleFlattenAs(rule string) RuleFn {
 			c.Und(rule, "flatten replaces the group type by the element type", "no store rg.Type = t.Elem() in newResult")
 			return
 		}
-		norm := func(s string) string { return strings.ReplaceAll(s, "new:rg", "rg") }
+		// the local that holds the node may have any name: it is the struct the flatten store writes into
+		local := "new:rg"
+		if st, ok := stores[0].(*ssa.Store); ok {
+			if fa, ok := st.Addr.(*ssa.FieldAddr); ok {
+				local = an.Norm(fa.X)
+			}
+		}
+		norm := func(s string) string { return strings.ReplaceAll(s, local, "rg") }
 		optEmpty := an.EdgesWhere(fn, func(ft an.Fact) bool {
 			return ft.S == "(len(p:opts.As) == 0)" || ft.S == "!(len(p:opts.As) > 0)" || ft.S == "(len(p:opts.As) <= 0)"
 		})
